@@ -178,9 +178,9 @@ def run(run):
                         for o in (mod, dem, mod2):
                             if hasattr(o, "reset_state"):
                                 o.reset_state()
-                        # the same frame through different call forms: float / integer message tensors, noise variance as float, fraction, 0-dim tensor, by keyword or position
+                        # the same frame through different call forms: float / integer (int64, uint8, bool) message tensors, noise variance as float, fraction, 0-dim tensor, by keyword or position
                         var = fi % 4
-                        Xc = X.long() if var == 1 else (X.double() if var == 3 and iface == "hard" else X)
+                        Xc = (X.long() if _LINKS[0] % 3 == 0 else (X.to(torch.uint8) if _LINKS[0] % 3 == 1 else X.bool())) if var == 1 else (X.double() if var == 3 and iface == "hard" else X)
                         nvc = (1.0, 0.25, torch.tensor(0.5), 4)[var]
                         # the noise variance as a positional extra instead of a keyword - for links all of whose stages take a second positional
                         # argument as `noise_var` or as *args (a stage whose second parameter means something else is outside this call form)
